@@ -31,6 +31,7 @@ type RunCfg struct {
 	SwitchBound int            `json:"switch_bound"`
 	Shards      int            `json:"shards"`
 	ShardDepth  int            `json:"shard_depth"`
+	CrossSolver string         `json:"cross_solver"`
 	MapRotate   bool           `json:"map_rotate"`
 	SymRand     bool           `json:"sym_rand"`
 	OpaqueMake  bool           `json:"opaque_make"`
@@ -110,11 +111,12 @@ type Frame struct {
 }
 
 type VM struct {
-	prog   *ssa.Program
-	tb     *TermBank
-	solver *Solver
-	cfg    *RunCfg
-	ex     *Explorer
+	prog    *ssa.Program
+	tb      *TermBank
+	solver  *Solver
+	solver2 *Solver // optional second solver for cross-checking assertion queries
+	cfg     *RunCfg
+	ex      *Explorer
 
 	intMode bool
 
